@@ -5,7 +5,7 @@ from contracts import condition as _c   # noqa: F401
 NS = ["Notification", "Interrupt.parked_or_scheduled"]
 DEAD_NEW = "forall_new(Interrupt, lambda i: i.sub is None and (i._revoked or not i.scheduled))"
 RESULT = OPT(TUP(ANY, OPT(REF("BaseException"))))
-default_scope(NS + ["Task", "Done", "NotDone", "coroutine", "Scope", "Condition", "CancelTask"])
+default_scope(NS + ["Task", "Done", "NotDone", "coroutine", "Scope", "Condition", "CancelTask", "InterruptScope"])
 
 
 # ghost view of a native coroutine object: its state and (for task runners) the task it belongs to
@@ -43,7 +43,7 @@ invariant("Done", "wellformed", "self._task is not None and self._task._done is 
 invariant("NotDone", "no_waiter_when_true",
           "self._done is not None and self._done._inverse is self and implies(not self._done._value, len(self._waiting) == 0)", props=["C08"])
 
-contract("usim._primitives.task.try_close", allocates=False,
+contract("usim._primitives.task.try_close",
          params={"coroutine": ANY},
          # closing a payload that never started or that has finished runs no code of the simulation
          ensures=["True"], modifies=[], check_frame=False, inline=False, no_invariants=True,
@@ -115,7 +115,7 @@ contract("usim._primitives.task.Task.cancel",
                    "CancelTask.subject", "TaskCancelled.subject", "Interrupt.sub", "Interrupt.immediate"],
          props=["C06", "C03"])
 
-contract("usim._primitives.task.Task.__close__",
+contract("usim._primitives.task.Task.__close__", havoc_all=True,
          params={"self": REF("Task"), "reason": REF("BaseException")},
          requires=["True"],
          ensures=["implies(old(self._result) is None, self._done._value)", "self._result is not None",
@@ -160,10 +160,18 @@ contract("usim._primitives.task.Task.__init__",
          ensures=["self.payload is payload", "self.parent is parent", "self.__volatile__ == volatile", "self._result is None",
                   "len(self._cancellations) == 0", "not self._done._value", "len(self._done._waiting) == 0",
                   "fresh_obj(self.__runner__) and self.__runner__.state == 0 and self.__runner__.task is self",
-                  "not self.reported and not self.linked"],
+                  "not self.reported and not self.linked",
+                  "self._done._task is self and self._done._inverse._done is self._done and len(self._done._inverse._waiting) == 0",
+                  "fresh_obj(self._done) and fresh_obj(self._done._inverse)",
+                  # nothing that existed before is touched
+                  "forall(Notification, lambda n: implies(not fresh_obj(n), n._waiting == old(n._waiting)))",
+                  "forall(Done, lambda d: implies(not fresh_obj(d), d._value == old(d._value) and d._task is old(d._task) and d._inverse is old(d._inverse)))",
+                  "forall(NotDone, lambda d: implies(not fresh_obj(d), d._done is old(d._done)))",
+                  "forall(coroutine, lambda c: implies(not fresh_obj(c), c.state == old(c.state) and c.task is old(c.task)))"],
          ghost_exit=["self.__runner__.task = self"],
          modifies=["Task.payload@self", "Task.parent@self", "Task.__volatile__@self", "Task._result@self", "Task._cancellations@self",
-                   "Task._done@self", "Task.__runner__@self"],
+                   "Task._done@self", "Task.__runner__@self", "coroutine.task", "coroutine.state",
+                   "Done._task", "Done._value", "Done._inverse", "NotDone._done", "Notification._waiting"],
          check_frame=False,
          props=["C06", "C04"])
 
